@@ -1,4 +1,6 @@
 import Xo.Lemmas.LayoutRT
+import Xo.Lemmas.ArrayView
+import Xo.Lemmas.Path
 /-! C06 — a view rebuilt from buffer and offset equals the constructed handle (property theorems only).
 The constructor handle caches what it planned (`info.size`, `info.shape`, `info.strides`, `info.offsets`); a view re-reads
 all of it from the bytes.  `readD` IS the view; the constructor-side quantities are `vsize`, the value's shape, `getStrides`
@@ -62,5 +64,60 @@ one buffer image, so a write through one IS a change of the memory the other rea
 is a function of the current memory only (no cached value), hence after any write `w` both read `readD t (w m) off`. -/
 theorem C06_no_private_state (t : Ty) (m1 m2 : Mem) (off : Nat) (h : m1 = m2) : readD t m1 off = readD t m2 off := by
   rw [h]
+
+/-- **same strides**: the strides a view caches - class constants for a static shape, the header words for an N-dimensional
+dynamic shape, the item unit for one dimension - are `get_strides(shape, order, unit)` of the constructed object, for every
+axis order that is a permutation of the axes -/
+theorem C06_view_strides (it : Ty) (shape : List (Option Nat)) (order sh : List Nat) (items : List Val)
+    (hw : (Ty.array it shape order).WF) (hc : Conf (.array it shape order) (.arr sh items))
+    (hperm : order.Perm (List.range shape.length))
+    (hsw : ∀ s ∈ getStrides sh order (ainfo it shape).unit, s < 2 ^ 64)
+    (m : Mem) (off : Nat) (hb : off + vsize (.array it shape order) (.arr sh items) ≤ m.length) (m' : Mem)
+    (hag : Agree m' (apply (shift off (patchesD (.array it shape order) (.arr sh items))) m) off
+      (off + vsize (.array it shape order) (.arr sh items))) :
+    viewStrides it shape order m' off = getStrides sh order (ainfo it shape).unit :=
+  view_strides it shape order sh items hw hc hperm hsw m off hb m' hag
+
+/-- **same value at every index**: for every shape (static, dynamic, mixed), every axis order and every valid index tuple,
+the address arithmetic of a view, `data offset + Σ idx[ax] * stride[ax]` with the strides the view itself read, reaches the
+item at the tuple's memory position `mposL` (in range, and different for different tuples: `C06_index_distinct`), and the value
+read there - directly for fixed-size items, through the offset table for dynamically sized ones - is the item the constructor
+was given for that position -/
+theorem C06_item_at_index (it : Ty) (shape : List (Option Nat)) (order sh : List Nat) (items : List Val)
+    (hw : (Ty.array it shape order).WF) (hc : Conf (.array it shape order) (.arr sh items))
+    (hs : vsize (.array it shape order) (.arr sh items) < 2 ^ 64)
+    (hperm : order.Perm (List.range shape.length))
+    (hsw : ∀ s ∈ getStrides sh order (ainfo it shape).unit, s < 2 ^ 64)
+    (m : Mem) (off : Nat) (hb : off + vsize (.array it shape order) (.arr sh items) ≤ m.length) (m' : Mem)
+    (hag : Agree m' (apply (shift off (patchesD (.array it shape order) (.arr sh items))) m) off
+      (off + vsize (.array it shape order) (.arr sh items)))
+    (idx : List Nat) (hv : ValidIdx sh idx) :
+    let pos := mposL sh order idx
+    let a := off + (ainfo it shape).dataOff + dot idx (viewStrides it shape order m' off)
+    pos < items.length ∧ dot idx (viewStrides it shape order m' off) = (ainfo it shape).unit * pos ∧
+    (if (ainfo it shape).staticType then readD it m' a else readD it m' (off + fromLE (readAt m' a 8)))
+      = (items.getD pos default).norm :=
+  view_item_at_index it shape order sh items hw hc hs hperm hsw m off hb m' hag idx hv
+
+/-- different valid index tuples address different items -/
+theorem C06_index_distinct (shape order idx idx' : List Nat) (hperm : order.Perm (List.range shape.length))
+    (hv : ValidIdx shape idx) (hv' : ValidIdx shape idx') (h : mposL shape order idx = mposL shape order idx') : idx = idx' :=
+  mposL_inj shape order idx idx' hperm hv hv' h
+
+/-- **a write through either is seen through the other**: handle, nested views and C accessors locate a scalar element by the
+same address (`leafAt`); whatever stores the element's bytes there, a view of the whole enclosing object - created before or
+after the store - reads the value with exactly that element replaced -/
+theorem C06_write_seen_through_view (t : Ty) (v : Val) (hw : t.WF) (hc : Conf t v) (hs : vsize t v < 2^64)
+    (m0 : Mem) (off : Nat) (hbo : off + vsize t v ≤ m0.length) (m : Mem)
+    (hm : Agree m (apply (shift off (patchesD t v)) m0) off (off + vsize t v)) (hlen : m.length = m0.length)
+    (p : List Nat) (lo w b : Nat) (hl : leafAt t v p = some (lo, w)) (hb : b < 256 ^ w) :
+    ∃ v', updAt t v p b = some v' ∧ readD t (setScalar m (off + lo) w b) off = v'.norm := by
+  obtain ⟨v', h1, _, _, _, h5⟩ := set_leaf_rt t v hw hc hs m0 off hbo m hm hlen p lo w b hl hb
+  exact ⟨v', h1, h5⟩
+
+/-- non-vacuity: a 2 x 3 array stored with axis order (1, 0) (Fortran order): strides (8, 16) for 8-byte items, index (1, 2)
+is memory position 5, index (0, 1) is memory position 2 -/
+example : getStrides [2, 3] [1, 0] 8 = [8, 16] ∧ mposL [2, 3] [1, 0] [1, 2] = 5 ∧ mposL [2, 3] [1, 0] [0, 1] = 2 ∧
+    dot [1, 2] (getStrides [2, 3] [1, 0] 8) = 8 * 5 := by decide
 
 end Lay
